@@ -8,8 +8,15 @@ CONSTANTS
   Versions = {"phase0", "altair", "bellatrix", "capella", "deneb"}
   Blindable = {"bellatrix", "capella", "deneb"}
   Outcomes = {"full", "err", "bad400", "nilresp", "never"}
+  Dslots <- AllDslots
   MaxCalls = 12
-INVARIANTS OnlyDutySigner SignedIsSelected SubmittedIntact NothingWithoutUnblind DegradesNotSkips
+  NDuties = 16
+  SlotGaps = {1}
+  LaterAllChoices = {{}}
+  LaterVersions = {"deneb"}
+  LaterOutcomes = {"full"}
+  LaterDslots = {0}
+INVARIANTS OnlyDutySigner SignedIsSelected SubmittedIntact NothingWithoutUnblind DegradesNotSkips CompletesDuty HistoryIndependent
 CONSTRAINT HWM
 POSTCONDITION TraceAccepted
 CHECK_DEADLOCK FALSE
